@@ -123,6 +123,7 @@ type shardResult struct {
 	Findings   []json.RawMessage           `json:"findings"`
 	Counts     map[string]int64            `json:"counts"`
 	Maxes      map[string]int64            `json:"maxes"`
+	Mins       map[string]int64            `json:"mins"`
 	Sets       map[string][]string         `json:"sets"`
 	Hists      map[string]map[string]int64 `json:"hists"`
 	Samples    []interface{}               `json:"samples"`
@@ -266,6 +267,7 @@ func main() {
 	// merge
 	counts := map[string]int64{}
 	maxes := map[string]int64{}
+	mins := map[string]int64{}
 	sets := map[string]map[string]bool{}
 	hists := map[string]map[string]int64{}
 	var samples []interface{}
@@ -280,6 +282,11 @@ func main() {
 		for k, v := range r.Maxes {
 			if v > maxes[k] {
 				maxes[k] = v
+			}
+		}
+		for k, v := range r.Mins {
+			if old, ok := mins[k]; !ok || v < old {
+				mins[k] = v
 			}
 		}
 		for k, vs := range r.Sets {
@@ -395,6 +402,9 @@ func main() {
 		cov[k] = v
 	}
 	for k, v := range maxes {
+		cov[k] = v
+	}
+	for k, v := range mins {
 		cov[k] = v
 	}
 	for k, s := range sets {
